@@ -85,7 +85,7 @@ LEVELS = {
                 text="PROVED unbounded (T1) for the four fit heuristics: a returned packing implies no oversize item, and the only exception that can be raised is ValueError and only when an oversize item exists, at any position and multiplicity, for opaque items (every input format); the sums-only manager's numitems raises NotImplementedError (T2). CBLDM with symbolic numbins / time_limit / partition_difference (integer, non-integral, default) and possibly negative items raises ValueError exactly for the malformed requests (T2, n<=2/3); bin-completion raises ValueError exactly when an item exceeds the bin size (T2, n<=3/4). T3 stand-ins run besides.",
                 technique=_T1 + " + " + _T3),
     "C20": dict(category="proof",
-                text="PROVED for every vector length <=5 (7 thorough), list / tuple / ndarray, k up to 6 (8) including k > n, ALL non-negative integer sums and ALL positive weights (T2): each of the six objectives returns its documented quantity, and the fast path for sums declared sorted returns the same value whenever they are sorted. Longer vectors: BOUNDED STAND-IN (T3).",
+                text="PROVED for vectors of ANY length (T1) for the three extremum objectives (minus the smallest, the largest, largest minus smallest; fast path = slow path on sorted vectors); PROVED for every vector length <=5 (7 thorough), list / tuple / ndarray, k up to 6 (8) including k > n, ALL non-negative integer sums and ALL positive weights (T2): each of the six objectives returns its documented quantity, and the fast path for sums declared sorted returns the same value whenever they are sorted. Longer vectors: BOUNDED STAND-IN (T3).",
                 technique=_T2),
 }
 for _k, _v in LEVELS.items():
